@@ -151,7 +151,7 @@ theorem wfRollback2_of (s : Store) (b : Block) (h1 : wfAppend2B s b = true) (h2 
     { toWFAppend2 := wfa
       freshLock := fun sc txi io => fresh (.cellLock sc b.number txi io) rfl
       freshTxLock := fun sc txi io t => fresh (.txLock sc b.number txi io t) rfl
-      freshConsumed := fun op => fresh (.consumed b.number op) rfl
+      freshConsumed := fun _ _ op _ _ _ _ => fresh (.consumed b.number op) rfl
       freshTx := hTx
       hdrBelow := hHdr
       lockInv := li
